@@ -353,14 +353,21 @@ def coq_case(case, req, claims, port):
         return "RErr" if st["kk_dead"] else coq_item(st["rules"][ep])
     env = "{| e_counter_ok := %s; e_claims_json_ok := (fun _ => true); e_ws := %s; e_ga := %s; e_imds := %s |}" % (
         "false" if st["as_dead"] else "true", getter("wireserver"), getter("hostga"), getter("imds"))
-    if case["record"] is None:
-        amap = "[]"
-    else:
-        a = case["record"]
-        amap = "[(%s, {| ae_logon := %s; ae_pid := 1%%N; ae_is_admin := (%d)%%Z; ae_ip := %s; ae_port := %s |})]" % (
-            cN(port), cN(a["uid"]), a["is_admin"], cN(ip_net(a["dest_ip"])), cN(a["dest_port"]))
     os_ = "(fun _ _ => Some (%s, %s, %s, %s))" % (cb(claims["user"]), clist([cb(g) for g in claims["groups"]], "bytes"),
                                                   cb(claims["proc"]), cb(claims["exe"]))
+
+    def rec_term(a):
+        return "(%s, {| ae_logon := %s; ae_pid := 1%%N; ae_is_admin := (%d)%%Z; ae_ip := %s; ae_port := %s |})" % (
+            cN(port), cN(a["uid"]), a["is_admin"], cN(ip_net(a["dest_ip"])), cN(a["dest_port"]))
+    if case.get("map_before") is not None:
+        # the audit map as earlier accepts on the same source port left it: the model's own single-use step
+        amap = "[%s]" % rec_term(case["map_before"])
+        for _ in range(case.get("prior_accepts", 0)):
+            amap = "(snd (accept %s false %s %s))" % (os_, amap, cN(port))
+    elif case["record"] is None:
+        amap = "[]"
+    else:
+        amap = "[%s]" % rec_term(case["record"])
     absolute, scheme, authority, path, query = split_target(req["target"])
     uri = "{| ur_scheme := %s; ur_authority := %s; ur_path := %s; ur_query := %s |}" % (
         coq_optbytes(scheme), coq_optbytes(authority), cb(path), coq_optbytes(query))
@@ -371,9 +378,9 @@ def coq_case(case, req, claims, port):
 # ------------------------------------------------------------------------------------------
 # the check
 # ------------------------------------------------------------------------------------------
-def observe(case, res):
+def observe(case, res, known_ids=None):
     """what the implementation did, per request: status, [hosts at which a request with this id arrived]"""
-    conn = res["connections"][0]
+    conn = res["connections"][case.get("conn_index", 0)]
     obs = []
     arrived = {}
     stray_bytes = 0
@@ -391,7 +398,8 @@ def observe(case, res):
                     "complete": bool(resp and resp.get("complete")),
                     "raw": resp.get("raw", b"") if resp else b"",
                     "arrived": arrived.get(rq["id"], [])})
-    unknown = sorted(str(k) for k in arrived if k not in {rq["id"] for rq in case["requests"]})
+    known = known_ids if known_ids is not None else {rq["id"] for rq in case["requests"]}
+    unknown = sorted(str(k) for k in arrived if k not in known)
     return obs, stray_bytes, unknown
 
 
@@ -495,26 +503,94 @@ def run(ctx):
     self_case = add(e2e.audit(e2e.SELF, uid=0), {}, ["/machine", "/provision"], metadata=True)
     self_case["proxy_port"] = 3080                                                # the listener really is the destination
     cases += fixed
+    scenarios = []
+    for c in cases:
+        c["sc"], c["conn_index"] = len(scenarios), 0
+        scenarios.append(scenario_of(c))
+
+    # ---- scenarios with several connections (each connection is a case of its own, sharing one run)
+    def multi(name, conns, **knobs):
+        """conns: [(case dict without n/sc, e2e connection knobs)]"""
+        sc_ix = len(scenarios)
+        econns = []
+        for k, (c, cknobs) in enumerate(conns):
+            c.update({"n": "%s.%d" % (name, k), "sc": sc_ix, "conn_index": k, "special": True, "proxy_port": None,
+                      "dest": ("%s:%d" % (c["record"]["dest_ip"], c["record"]["dest_port"])) if c["record"] else None})
+            c.setdefault("rules", {"wireserver": None, "hostga": None, "imds": None})
+            for j, rq in enumerate(c["requests"]):
+                rq.update({"id": "%s.%d-%d" % (name, k, j), "class": name.split("#")[0], "metadata": False, "ops_after": rq.get("ops_after", [])})
+                rq["raw"] = e2e.http_request(rq["method"], rq["target"], [("x-verif-id", rq["id"])])
+            finalize_case(c)
+            reqs = [e2e.req(r["raw"], ops_after=r["ops_after"]) if r["ops_after"] else e2e.req(r["raw"]) for r in c["requests"]]
+            econns.append(e2e.conn(reqs, audit=c["record"], id=c["n"], **cknobs))
+            cases.append(c)
+        scenarios.append(e2e.scenario(name, econns, default_reply={"status": MOCK_STATUS, "reason": "Mock", "body": "mock-ok"}, **knobs))
+
+    def bar(name, n):
+        return {"op": "barrier", "name": name, "n": n}
+    n_special = 0
+    # (1) the audit map is keyed by source PORT only: while an attributed keep-alive connection from 127.0.0.1:P is open,
+    #     direct connections from 127.0.0.2:P / 127.0.0.3:P must find nothing (the record was consumed at the first accept)
+    for k, (d, uid) in enumerate([(e2e.IMDS, 0), (e2e.WIRESERVER, 0), (e2e.OTHER, e2e.NOBODY_UID), (e2e.IMDS, e2e.NOBODY_UID),
+                                   (e2e.HOSTGA, 0), (e2e.LOCAL_OTHER, 0)]):
+        P = 41000 + k
+        rec = e2e.audit(d, uid=uid)
+        intr = 1 + k % 2                     # one or two intruders
+        A = ({"record": rec, "requests": [{"method": "GET", "target": "/machine", "ops_after": [bar("open", 1 + intr)]},
+                                          {"method": "GET", "target": "/machine"}]},
+             {"local_port": P, "ops_before_close": [bar("done", 1 + intr)]})
+        others = [({"record": None, "map_before": rec, "prior_accepts": 1 + i,
+                    "requests": [{"method": "GET", "target": "/machine"}, {"method": "GET", "target": "/metadata/instance"}]},
+                   {"local_port": P, "local_ip": "127.0.0.%d" % (2 + i), "ops_before_connect": [bar("open", 1 + intr)],
+                    "ops_before_close": [bar("done", 1 + intr)]}) for i in range(intr)]
+        # A's second request is sent while the intruders are connected or gone -- either way it is A's own
+        multi("same-port-other-address#%d" % k, [A] + others, concurrent=True)
+        n_special += 1
+    # (2) a caller that exec()s another image between two connections is judged by the image it has NOW
+    sh_exe = os.path.realpath(shutil.which("sh") or "/bin/sh")
+    tail_exe = os.path.realpath(shutil.which("tail") or "/usr/bin/tail")
+    root_user, root_groups = os_user(0)
+
+    def by_identity(ident):
+        return {"defaultAccess": "deny", "mode": "enforce", "id": "by-image", "rules": {
+            "privileges": [{"name": "p", "path": "/"}], "roles": [{"name": "r", "privileges": ["p"]}],
+            "identities": [dict({"name": "i"}, **ident)], "roleAssignments": [{"role": "r", "identities": ["i"]}]}}
+    for k, ident in enumerate([{"processName": os.path.basename(sh_exe)}, {"processName": os.path.basename(tail_exe)},
+                               {"exePath": sh_exe}, {"exePath": tail_exe}]):
+        rules = {"wireserver": None, "hostga": None, "imds": by_identity(ident)}
+        mk = lambda exe: {"record": e2e.audit(e2e.IMDS, uid=0, pid="h1"), "rules": dict(rules),
+                          "claims_fixed": {"user": root_user, "groups": root_groups, "proc": os.path.basename(exe), "exe": exe},
+                          "requests": [{"method": "GET", "target": "/metadata/instance"}]}
+        multi("exec-between-connections#%d" % k,
+              [(mk(sh_exe), {}), (mk(tail_exe), {"ops_before_connect": [{"op": "helper_exec", "name": "h1"}]})],
+              rules=rules, exec_helpers={"h1": [tail_exe, "-f", "/dev/null"]})
+        n_special += 1
 
     # ---------------- (a) implementation ----------------
-    results = e2e.run_scenarios(ctx, [scenario_of(c) for c in cases], timeout=900, shards=None if ctx.quick else 8)
+    results = e2e.run_scenarios(ctx, scenarios, timeout=900, shards=None if ctx.quick else 8)
     ctx.log("e2e: %d scenarios run" % len(results))
+    ids_of_scenario = {}
+    for c in cases:
+        ids_of_scenario.setdefault(c["sc"], set()).update(rq["id"] for rq in c["requests"])
 
     # ---------------- (b) model ----------------
     exprs, index = [], []
-    for ci, (case, res) in enumerate(zip(cases, results)):
+    for ci, case in enumerate(cases):
+        res = results[case["sc"]]
         if not res.get("ok"):
             raise RuntimeError("e2e scenario %r failed in the driver: %s" % (case["n"], res.get("error")))
         case["counter_dead"] = any(rq["env"]["as_dead"] for rq in case["requests"]) or "agent_status" in case.get("killable", [])
         a = case["record"]
-        if a is None:
+        if case.get("claims_fixed"):
+            claims = case["claims_fixed"]
+        elif a is None:
             claims = {"user": "", "groups": [], "proc": "", "exe": ""}
         else:
             user, ugroups = os_user(a["uid"])
             exe = os.path.join(res["scratch"], "e2e") if a["pid"] == "self" else hexe
             claims = {"user": user, "groups": ugroups, "proc": os.path.basename(exe), "exe": exe}
         case["claims"] = claims
-        port = res["connections"][0]["local_port"]
+        port = res["connections"][case["conn_index"]]["local_port"]
         for j, rq in enumerate(case["requests"]):
             exprs.append(coq_case(case, rq, claims, port))
             index.append((ci, j))
@@ -539,18 +615,24 @@ def run(ctx):
     per_case_model = {}
     for (ci, j), mo in zip(index, model):
         per_case_model.setdefault(ci, []).append(mo)
-    for ci, (case, res) in enumerate(zip(cases, results)):
-        obs, stray_bytes, unknown = observe(case, res)
+    for ci, case in enumerate(cases):
+        res = results[case["sc"]]
+        obs, stray_bytes, unknown = observe(case, res, ids_of_scenario[case["sc"]])
         brief = {"n": case["n"], "record": case["record"], "rules": case["rules"], "proxy_port": case["proxy_port"],
                  "requests": [{k: (v.decode("latin-1") if isinstance(v, bytes) else v) for k, v in r.items() if k != "env"} for r in case["requests"]],
                  "note": "rules = what is installed before the connection; each request's ops_after run after its response"}
-        conn = res["connections"][0]
+        conn = res["connections"][case["conn_index"]]
+        if conn.get("connect_error") or conn.get("error"):
+            raise RuntimeError("e2e connection of case %r failed in the driver: %s" % (case["n"], conn.get("connect_error") or conn.get("error")))
+        if case.get("special"):
+            brief["scenario"] = scenarios[case["sc"]]["name"]
+            brief["note"] = "one connection of a scenario with several; see tools/checks/c01.py (multi) for the choreography"
         # --- accept step: one lookup, found iff a record was injected; the record is consumed
         want_trace = [{"ev": "lookup", "port": conn["local_port"], "found": case["record"] is not None}]
         if case["record"] is not None:
             want_trace.append({"ev": "remove", "port": conn["local_port"], "found": True, "failed": False})
         own_trace = [t for t in res["trace"] if t.get("port") == conn["local_port"]]
-        if own_trace != want_trace or (res["audit_map"] and case["proxy_port"] != 3080):
+        if not case.get("special") and (own_trace != want_trace or (res["audit_map"] and case["proxy_port"] != 3080)):
             disagreements.append({"case": brief, "model": {"trace": want_trace, "audit_map": []},
                                   "impl": {"trace": res["trace"], "audit_map": res["audit_map"]}})
         if not res["drained"] or stray_bytes or unknown or res["panics"]:
@@ -619,8 +701,8 @@ def run(ctx):
                                      "impl": {"status": ob["status"], "arrived": ob["arrived"]}})
         # --- summaries (C11 looks closer; here: the counts the model's effects predict) and the derived claims
         sm = res["summary"]
-        if case["counter_dead"]:
-            continue            # the summaries died with the agent-status actor
+        if case["counter_dead"] or case.get("special"):
+            continue            # the summaries died with the agent-status actor / are shared by several connections
         got_counts = (sum(s["count"] for s in sm["failed"]), sum(s["count"] for s in sm["ok"]))
         if got_counts != (n_failed_fx, n_ok_fx) and case["proxy_port"] != 3080:
             disagreements.append({"case": brief, "model": {"failed_summaries": n_failed_fx, "summaries": n_ok_fx},
@@ -646,14 +728,16 @@ def run(ctx):
                 "percent-escapes, upper case, absolute-form, signature-exempt} x method/body; 1-3 requests per keep-alive connection with, between "
                 "requests, a rule change for an endpoint / the key-keeper actor killed (rules lookup failure) / the agent-status actor killed "
                 "(counter failure); plus %d hand-made corner connections: policy flips mid-connection, lookup and counter failures per destination, "
-                "every signature-exempt (method, url) pair of should_skip_sig in 4 spellings x 8 callers, the listener as its own destination (port 3080). non-trivial = anything but a 421 on a direct connection, "
+                "every signature-exempt (method, url) pair of should_skip_sig in 4 spellings x 8 callers, the listener as its own destination (port 3080); "
+                "plus multi-connection scenarios: direct connections from 127.0.0.2/3 with the SAME source port as a still-open attributed "
+                "connection, and a caller that exec()s another image between two connections under rules keyed on processName / exePath. non-trivial = anything but a 421 on a direct connection, "
                 "distinct by (method, target, record, rules)" % len(fixed),
         "exhaustive": False,
         "samples": [
             {"request": cases[k]["requests"][0]["target"], "record": cases[k]["record"],
-             "impl": {"status": results[k]["connections"][0]["responses"][0].get("status"),
-                      "upstream_bytes": {h: [c["nbytes"] for c in v] for h, v in results[k]["upstream"].items() if v}},
-             "model": per_case_model[k][0]} for k in (0, 1, len(cases) - 1)],
+             "impl": {"status": results[cases[k]["sc"]]["connections"][0]["responses"][0].get("status"),
+                      "upstream_bytes": {h: [c["nbytes"] for c in v] for h, v in results[cases[k]["sc"]]["upstream"].items() if v}},
+             "model": per_case_model[k][0]} for k in (0, 1, len(fixed) and n_cases)],
         "input_distribution": {
             "connections": len(cases), "requests": total, "relayed_by_model": relayed, "refused_by_model": refused,
             "outcome_classes": {"/".join(str(x) for x in k): v for k, v in sorted(outcome_classes.items(), key=lambda kv: -kv[1])[:60]},
